@@ -86,7 +86,9 @@ static void gen_case(Rng &r, Case &c)
             c.args.insert(c.args.end(), el.begin(), el.end());
             c.tags.push_back(el.empty() ? "empty_array" : "array");
             // a +-1 progression of the array's type directly behind the array
-            if(!el.empty() && strchr("cih", t) && r.chance(0.35)) { std::vector<av_t> run; gen_run(r, c, run, t, 0, true); c.args.insert(c.args.end(), run.begin(), run.end()); c.tags.push_back("unit_progression_after_array"); count("gen.unit_progression_after_array"); }
+            if(!el.empty() && strchr("cih", t) && r.chance(0.35)) {
+                // sometimes the array itself begins with a run long enough to be compressed
+                if(r.chance(0.4) && el.size() >= 6) { av_t one = av::mk(t); if(t == 'h') one.val.h = 1; else one.val.i = 1; for(size_t q = 1; q < 5; ++q) av::step_value(el[0], one, (int)q, el[q]); if(t != 'c' || el[4].val.i < 0x7f) { size_t at = c.args.size() - el.size(); for(size_t q = 0; q < el.size(); ++q) c.args[at + q] = el[q]; c.tags.push_back("array_with_inner_run_then_run"); count("gen.array_with_inner_run_then_run"); } } std::vector<av_t> run; av_t lastel = c.args.back(); gen_run(r, c, run, t, r.chance(0.5) ? &lastel : 0, true); c.args.insert(c.args.end(), run.begin(), run.end()); c.tags.push_back("unit_progression_after_array"); count("gen.unit_progression_after_array"); }
         } else {
             std::vector<av_t> run;
             bool arith = gen_run(r, c, run);
